@@ -188,7 +188,8 @@ def from_ctc_to_geff(
             # forward in time (parent -> child)
             edges.append((_node_ids[i], _node_ids[i + 1]))
 
-    tracks_table = np.loadtxt(tracks_file_path, dtype=int)
+    # ndmin=2 keeps a one-row (or empty) table two-dimensional
+    tracks_table = np.loadtxt(tracks_file_path, dtype=int, ndmin=2)
 
     # removing orphan tracklets
     tracks_table = tracks_table[tracks_table[:, -1] > 0]
